@@ -224,7 +224,22 @@ func c04Weights(c *ctx) {
 				bumped++
 			}
 		}
-		tol := (1.5 + float64(bumped)) / 10000
+		// Targets below a slot's worth get a slot all the same, but of a ring fine enough that nobody else pays for it: as
+		// long as the smallest share is at least a tenth of a slot (1e-5) every share is right to within 1.5 slots of
+		// 10,000. Below that (hundreds of targets at a millionth each) the ring cannot be that fine and the overshoot of the
+		// rounded-up targets is tolerated as before.
+		minW := 1.0
+		for j := range eff {
+			if eff[j] > 0 && eff[j] < minW {
+				minW = eff[j]
+			}
+		}
+		tol := 1.5 / 10000
+		if minW < 1e-5 {
+			tol = (1.5 + float64(bumped)) / 10000
+		} else if bumped > 0 {
+			c.R.Count("routes_with_sub_slot_targets_checked_strictly", 1)
+		}
 		for j := range slots {
 			w := eff[j]
 			real := r0.Targets[j].Weight
